@@ -43,7 +43,10 @@ func (w *Waiter) Wait(ctx context.Context) (ok bool) {
 	// For once schedule, for example, we need to get it only once.
 	waitFor := next.Sub(w.lastNow)
 	if waitFor <= 0 {
-		w.overdueDuration = 0 - waitFor
+		// The cached reading is refreshed only when an event lies after it, so it can be
+		// arbitrarily stale here: judge the overdue against the current time.
+		w.lastNow = time.Now()
+		w.overdueDuration = w.lastNow.Sub(next)
 		return true
 	}
 	w.lastNow = time.Now()
